@@ -920,7 +920,8 @@ func TestProp(t *testing.T) {
 			"Distance (independent point-segment formula); Point.Buffer vertices; Bounds.Area/Centroid. Every polygon case is counted non-trivial (each is one orbit " +
 			"element of a shape with holes/members/orientation choice), line cases when the nearest feature is a segment interior or >=2 members, buffers with radius>0. " +
 			"Distinct by case hash." +
-			" Round 11: 'teeth' polygons (1 lattice polygon in 20): a small triangular hole at every vertex of a rectangle or L-shaped shell and at the middle of no, every, the first k or some of its sides.",
+			" Round 11: 'teeth' polygons (1 lattice polygon in 20): a small triangular hole at every vertex of a rectangle or L-shaped shell and at the middle of no, every, the first k or some of its sides." +
+			" Round 12: a quarter of the teeth polygons are convex lattice shells of 8-320 sides; Area and (where stated) Centroid are also taken of P.Difference(a box far away); polygons whose rings touch get exact transforms only.",
 		Assumptions: []string{"valid polygons only (holes strictly inside, nothing touching)", "tolerances: area 1e-12*maxabs^2, centroid 1e-11*maxabs^3/area (exact lattice: 1e-12 relative)"},
 		Gen:         gen,
 		Run:         run,
